@@ -98,6 +98,13 @@ static void dense_data(const Shape& s, std::vector<int64_t>& mat, std::vector<in
   for (size_t e = 0; e < a.size(); ++e) { int64_t v = (int64_t)e + 1001; a[e] = (e % 3 == 0) ? -v : v; }
 }
 
+// every input coefficient a multiple of 2^32 (a plaintext scaled by a large power of two), tiny matrix entries: still exact
+static void scaled_data(const Shape& s, std::vector<int64_t>& mat, std::vector<int64_t>& a) {
+  mat.resize(s.nr * s.nc * s.N); a.resize(std::max<uint64_t>(s.as, 1) * s.N);
+  for (size_t e = 0; e < mat.size(); ++e) mat[e] = (int64_t)((e * 5 + 1) % 7) - 3;
+  for (size_t e = 0; e < a.size(); ++e) { int64_t v = (int64_t)((e * 3) % 7 + 1) << (32 + (e / s.N) % 2 * 3); a[e] = (e % 3 == 0) ? -v : v; }
+}
+
 static void run_box(Ctx& ctx, uint64_t N, const CpuCfg& cfg, uint64_t maxdim, uint64_t maxsize) {
   MODULE* mod = get_module(N, FFT64, cfg);
   std::vector<int64_t> mat, a;
@@ -106,6 +113,7 @@ static void run_box(Ctx& ctx, uint64_t N, const CpuCfg& cfg, uint64_t maxdim, ui
       Shape s{N, nr, nc, as, rs, asl};
       dense_data(s, mat, a);
       check_case(ctx, mod, s, mat, a, shape_id(s, cfg.name, "dense"), false);
+      if (nr <= 3 && nc <= 3 && as <= 3 && rs <= 3 && N <= 16) { scaled_data(s, mat, a); check_case(ctx, mod, s, mat, a, shape_id(s, cfg.name, "scaled-2^32"), false); }
     }
   // larger shapes (odd / even columns, res_size <,=,> ncols, a_size <,=,> nrows)
   for (auto& q : std::vector<std::vector<uint64_t>>{{7, 9, 8, 9}, {9, 7, 10, 5}, {1, 12, 1, 11}, {12, 1, 13, 1}, {8, 8, 8, 7}, {5, 11, 5, 9}, {11, 6, 3, 6}, {6, 7, 9, 8}})
